@@ -72,6 +72,7 @@ func setFile(sc *Scope, f *Mod) {
 func Split(rng *rand.Rand, m *Mod, k int) []*Mod {
 	r := &Resolver{}
 	part := map[interface{}]int{}
+	needs := map[int]map[int]bool{} // part -> parts whose definitions it references
 	assign := func(def interface{}, refs map[interface{}]bool) {
 		lo := 0
 		zero := false
@@ -95,6 +96,15 @@ func Split(rng *rand.Rand, m *Mod, k int) []*Mod {
 			lo = 1
 		}
 		part[def] = lo + rng.Intn(k-lo+1)
+		// remember which other parts this part needs to see
+		for d := range refs {
+			if p := part[d]; d != def && p > 0 && p != part[def] {
+				if needs[part[def]] == nil {
+					needs[part[def]] = map[int]bool{}
+				}
+				needs[part[def]][p] = true
+			}
+		}
 	}
 	// definitions in creation order: typedefs then groupings (a typedef may reference earlier typedefs;
 	// a grouping may reference typedefs and earlier groupings)
@@ -148,9 +158,16 @@ func Split(rng *rand.Rand, m *Mod, k int) []*Mod {
 		for _, im := range m.Imports {
 			s.Imports = append(s.Imports, &Import{Mod: im.Mod, Prefix: im.Prefix})
 		}
+		// A submodule includes the submodules whose definitions it references, and half of
+		// the other earlier ones; the order of the include statements is random. (Including
+		// every earlier submodule in order, as an earlier version did, never produces an
+		// include list in which an already visited submodule stands before a new one.)
 		for j := 1; j < i; j++ {
-			s.Includes = append(s.Includes, subs[j])
+			if needs[i][j] || rng.Intn(2) == 0 {
+				s.Includes = append(s.Includes, subs[j])
+			}
 		}
+		rng.Shuffle(len(s.Includes), func(a, b int) { s.Includes[a], s.Includes[b] = s.Includes[b], s.Includes[a] })
 		subs[i] = s
 	}
 	var keepT []*Typedef
@@ -204,5 +221,6 @@ func Split(rng *rand.Rand, m *Mod, k int) []*Mod {
 		m.Includes = append(m.Includes, subs[i])
 		out = append(out, subs[i])
 	}
+	rng.Shuffle(len(m.Includes), func(a, b int) { m.Includes[a], m.Includes[b] = m.Includes[b], m.Includes[a] })
 	return out
 }
